@@ -248,8 +248,9 @@ pub fn majority_scenario(r: &mut Report, seed: u64, fates: &[u8]) {
         let bytes = if q.is_query("put") {
             match fates2[i] {
                 0 => response(&q.t, B::dict(vec![("id", B::bytes(&me))]), Some(&d.from), Some(&VERSION_RS6)).encode(),
-                1 => error(&q.t, 301, "cas").encode(),
-                _ => error(&q.t, 302, "seq").encode(),
+                // every node words its error differently: only the code counts
+                1 => error(&q.t, 301, &format!("cas mismatch (node {i})")).encode(),
+                _ => error(&q.t, 302, &format!("sequence number less than current [{}]", i * 7)).encode(),
             }
         } else {
             let mut rd = vec![("id", B::bytes(&me)), ("nodes", B::Bytes(nodes_bytes(&ends2)))];
